@@ -17,6 +17,7 @@ import (
 	"go/constant"
 	"go/token"
 	"go/types"
+	mbits "math/bits"
 	"strings"
 
 	"golang.org/x/tools/go/ssa"
@@ -404,6 +405,23 @@ func (m *Machine) call(fn *ssa.Function, args []Val, depth int) Val {
 				if callee == nil || x.Call.IsInvoke() {
 					fail("%s: dynamic call", fn.Name())
 				}
+				if callee.Pkg != nil && callee.Pkg.Pkg.Path() == "math/bits" && strings.HasPrefix(callee.Name(), "Len") && len(x.Call.Args) == 1 {
+					// number of significant bits: monotone in the argument, so the interval maps to an interval
+					a := get(x.Call.Args[0])
+					if a.W == 0 {
+						fail("%s: bits.%s of an untracked value", fn.Name(), callee.Name())
+					}
+					r := Val{W: 64, Lo: uint64(mbits.Len64(a.Lo)), Hi: uint64(mbits.Len64(a.Hi))}
+					if r.Lo == r.Hi {
+						r = Const(r.Lo, 64)
+					} else {
+						for i := 0; i < 7; i++ {
+							r.Bits[i] = Bit{K: Top}
+						}
+					}
+					env[x] = r.normalize()
+					break
+				}
 				var as []Val
 				for _, a := range x.Call.Args {
 					as = append(as, get(a))
@@ -689,6 +707,27 @@ func binop(x *ssa.BinOp, a, b Val) Val {
 				}
 				return r.normalize()
 			}
+		}
+		// interval arithmetic on non-negative values that cannot wrap: the bits of the result are unknown, its
+		// range is exact for + and for the division by a positive constant (both monotone)
+		top := func(lo, hi uint64) Val {
+			if lo == hi {
+				return Const(lo, w)
+			}
+			r := Val{W: w, Lo: lo, Hi: hi}
+			for i := 0; i < w && i < 64; i++ {
+				r.Bits[i] = Bit{K: Top}
+			}
+			return r.normalize()
+		}
+		lim := mask(w) >> 1 // stays below the sign bit: valid for signed and unsigned operands alike
+		switch {
+		case x.Op == token.ADD && a.Hi <= lim && b.Hi <= lim && a.Hi+b.Hi <= lim:
+			return top(a.Lo+b.Lo, a.Hi+b.Hi)
+		case x.Op == token.SUB && okB && a.Hi <= lim && a.Lo >= cb:
+			return top(a.Lo-cb, a.Hi-cb)
+		case x.Op == token.QUO && okB && cb > 0 && cb <= lim && a.Hi <= lim:
+			return top(a.Lo/cb, a.Hi/cb)
 		}
 		fail("arithmetic on values the case does not fix")
 	case token.EQL, token.NEQ:
